@@ -475,7 +475,7 @@ func runFault(it *FaultItem, ks *sut.KeySet, workRoot string) (res FaultResult) 
 		for round := 0; round < 3; round++ {
 			res.Injections++
 			var stepErr string
-			okc, pan := sut.Watchdog(20*time.Second, func() {
+			okc, pan := sut.Watchdog(45*time.Second, func() {
 				r, err := inst.FS.Open("/zz-big")
 				if err != nil {
 					stepErr = "open: " + err.Error()
@@ -501,7 +501,7 @@ func runFault(it *FaultItem, ks *sut.KeySet, workRoot string) (res FaultResult) 
 				return
 			}
 			_ = stepErr
-			okp, panp := sut.Watchdog(20*time.Second, func() { _ = inst.FS.Mkdir(fmt.Sprintf("/zz-after-%d", round), 0o755) })
+			okp, panp := sut.Watchdog(45*time.Second, func() { _ = inst.FS.Mkdir(fmt.Sprintf("/zz-after-%d", round), 0o755) })
 			if !okp || panp != nil {
 				add(call, "after a partially read handle was closed, the next write call does not return (the stream goroutine still holds the drive): %v", panp)
 				res.Hang = !okp
@@ -522,7 +522,7 @@ func runFault(it *FaultItem, ks *sut.KeySet, workRoot string) (res FaultResult) 
 			res.Injections++
 			call := Call{Op: "StaleHandle", P: []string{"zz-d", "f"}, C: how, K: round}
 			var setupErr error
-			okc, pan := sut.Watchdog(40*time.Second, func() {
+			okc, pan := sut.Watchdog(60*time.Second, func() {
 				if setupErr = inst.FS.Mkdir("/zz-d", 0o755); setupErr != nil {
 					return
 				}
@@ -576,7 +576,7 @@ func runFault(it *FaultItem, ks *sut.KeySet, workRoot string) (res FaultResult) 
 				inst.Close()
 				return
 			}
-			okp, panp := sut.Watchdog(25*time.Second, func() {
+			okp, panp := sut.Watchdog(50*time.Second, func() {
 				_ = inst.FS.Mkdir("/zz-after", 0o755)
 				_, _ = inst.FS.Stat("/")
 				_, _ = sut.ReadAll(inst.FS, "/zz-d/g")
@@ -703,7 +703,7 @@ func runFault(it *FaultItem, ks *sut.KeySet, workRoot string) (res FaultResult) 
 			probes := []Call{{Op: "Mkdir", P: []string{"zz-probe"}}, {Op: "Stat", P: []string{}}, {Op: "List", P: []string{}}}
 			for _, pc := range probes {
 				pc := pc
-				okp, panp := sut.Watchdog(25*time.Second, func() { _ = w.Do(pc) })
+				okp, panp := sut.Watchdog(50*time.Second, func() { _ = w.Do(pc) })
 				if !okp {
 					add(it.Call, "%s: the call returned %v, but the following %s does not return (drive or lock not released); seam events of the failed call: %v", desc, ferr, pc.Op, tail(events, 14))
 					res.Hang = true
@@ -715,7 +715,7 @@ func runFault(it *FaultItem, ks *sut.KeySet, workRoot string) (res FaultResult) 
 				}
 			}
 			if probeFile != "" {
-				okp, panp := sut.Watchdog(25*time.Second, func() { _, _ = sut.ReadAll(inst.FS, probeFile) })
+				okp, panp := sut.Watchdog(50*time.Second, func() { _, _ = sut.ReadAll(inst.FS, probeFile) })
 				if !okp {
 					add(it.Call, "%s: the call returned %v, but reading %s afterwards does not return", desc, ferr, probeFile)
 					res.Hang = true
